@@ -208,7 +208,15 @@ theorem arAll_succ {cx : Ctx} {p : Prog} {fuel : Nat} (ih : ArAll cx p fuel) : A
             cases hr : sd.hasRet <;> rw [hr] at h hn <;> subst hn <;>
               (repeat' split at h) <;> first | (cases h; done) | (cases h; rfl) | (cases h; contradiction) | (cases h; exfalso; solve_by_elim)
         | _ => simp only [] at h; cases h
-    | wideRatio ns ds => simp only [wtR] at hw; cases hw
+    | wideRatio ns ds =>
+      simp only [wtR, Bool.and_eq_true, beq_iff_eq] at hw
+      rw [eval_wideRatio] at h
+      split at h
+      · rename_i st w1 _
+        rcases wrRes_cases ns.length st with ⟨q, hq, _⟩ | ⟨f, hf, _⟩
+        · rw [hq] at h; cases h; rw [hw.1.1.1.1.1.1]; rfl
+        · rw [hf] at h; cases h
+      · exfalso; solve_by_elim
     | substring a b c =>
       simp only [wtR, Bool.and_eq_true, beq_iff_eq] at hw
       simp only [eval] at h
@@ -767,7 +775,13 @@ theorem validAll_succ (hC : ValCtx p fp dyn T) (ih : ValidAll cx p fp dyn T fuel
       · cases h; exact one e hw _ _ (by assumption)
       · exact one e hw _ _ h
     | call f args => exact valid_call hC ih hK hw h
-    | wideRatio ns ds => simp only [wtR] at hw; cases hw
+    | wideRatio ns ds =>
+      simp only [wtR, Bool.and_eq_true] at hw
+      have hwa : wtRArgs K (ns ++ ds) = true := by rw [wtRArgs_append, hw.1.1.2, hw.1.2]; rfl
+      rw [eval_wideRatio] at h
+      split at h
+      · cases h; exact ih.args cur (ns ++ ds) w [] _ _ K _ hK hwa (by assumption)
+      · exact ih.args cur (ns ++ ds) w [] r w' K _ hK hwa h
     | substring a b c =>
       simp only [wtR, Bool.and_eq_true] at hw
       simp only [eval] at h
